@@ -24,7 +24,7 @@ fn main() {
             let id = args.get(2).cloned().unwrap_or_else(|| usage());
             let tier = std::env::var("VERIF_TIER").ok().filter(|t| t == "quick" || t == "thorough").or(args.get(3).cloned()).unwrap_or_else(|| "quick".into());
             let mut cx = report::Ctx::new(&id, &tier, repo, verif);
-            let known_ids = ["C01", "C02", "C04", "C05", "C06", "C16", "C10", "C12", "C14"];
+            let known_ids = ["C01", "C02", "C04", "C05", "C06", "C11", "C16", "C10", "C12", "C13", "C14"];
             if !known_ids.contains(&id.as_str()) {
                 eprintln!("no check for {}", id);
                 std::process::exit(2)
@@ -39,7 +39,9 @@ fn main() {
                     "C06" => rules::c06::run(&mut cx),
                     "C16" => rules::c16::run(&mut cx),
                     "C10" => rules::c10::run(&mut cx),
+                    "C11" => rules::c11::run(&mut cx),
                     "C12" => rules::c12::run(&mut cx),
+                    "C13" => rules::c13::run(&mut cx),
                     "C14" => rules::c14::run(&mut cx),
                     _ => unreachable!(),
                 }
